@@ -598,6 +598,98 @@ func replyInRequestOrder(t *Trace) bool {
 	return asg >= 1 && strings.HasPrefix(x, "V")
 }
 
+// serverFacts: the start order of the galaxy-ipam daemon (pkg/ipam/server/server.go) - hypotheses of the model's
+// faithfulness that no model move covers:
+//   - the allocation cache is (re)built from the store - plugin.Init, i.e. the first ConfigurePool - only once the
+//     process may act: on the OnStartedLeading path of the leader election, or directly when no election is configured;
+//     nothing builds it earlier (the model's `init` / `restart` = memory rebuilt from the store AT TAKE-OVER TIME);
+//   - the plugin (hence NewCrdIPAM and its AddEventHandler on the FloatingIP informer) is constructed BEFORE the informer
+//     factories are started, so the FloatingIP informer exists and the administrator's reservation events are delivered
+//     (the model's `adminReserve` / `adminUnreserve` moves);
+//   - the API's release function is the plugin's Release, the pool API's lock function the plugin's LockDpPool.
+func serverFacts(trace tracer, sv *fg.Parsed) (string, error) {
+	var b strings.Builder
+	tStart, err := trace(sv, "Server", "Start")
+	if err != nil {
+		return "", err
+	}
+	tRun, err := trace(sv, "Server", "Run")
+	if err != nil {
+		return "", err
+	}
+	tInit, err := trace(sv, "Server", "init")
+	if err != nil {
+		return "", err
+	}
+	tK8s, err := trace(sv, "Server", "initk8sClient")
+	if err != nil {
+		return "", err
+	}
+	tAPI, err := trace(sv, "Server", "startAPIServer")
+	if err != nil {
+		return "", err
+	}
+	isInit := func(s string) bool { return s == "R.plugin.Init()" }
+	// Run: Init first, before the plugin's routines and the servers
+	runInit := tRun.first(0, "call", isInit)
+	runOK := runInit >= 0 && tRun.first(0, "call", has("R.plugin.", "R.startAPIServer(", "R.startServer(")) == runInit
+	// Start: Init only through Run, and Run only when there is no election to win
+	elect := tmpl(`R.LeaderElection.LeaderElect && R.leaderElectionConfig != nil`, nil)
+	startOK := tStart.first(0, "call", is("R.Run()")) >= 0
+	for i, e := range tStart.Events {
+		if e.Kind != "call" {
+			continue
+		}
+		if isInit(e.Text) && e.Helper != "Run" {
+			startOK = false
+		}
+		if e.Text == "R.Run()" && e.Helper == "" {
+			if !tStart.holds(i, "!("+elect+")") || tStart.holds(i, elect) {
+				startOK = false
+			}
+		}
+		if strings.Contains(e.Text, "ConfigurePool(") {
+			startOK = false
+		}
+	}
+	// with an election: RunOrDie under the election condition, Run from OnStartedLeading
+	ro := tStart.first(0, "call", has("leaderelection.RunOrDie("))
+	electOK := ro >= 0 && tStart.holds(ro, elect)
+	leading := false
+	for _, e := range tK8s.Events {
+		if e.Kind == "call" && e.Closure != 0 && e.Text == "R.Run()" {
+			leading = true
+		}
+		if e.Kind == "call" && isInit(e.Text) {
+			leading = false
+			break
+		}
+	}
+	noEarly := tInit.first(0, "call", isInit) < 0 && tInit.first(0, "call", has("ConfigurePool(")) < 0
+	fmt.Fprintf(&b, "\n/-- galaxy-ipam start order: plugin.Init (the first ConfigurePool: the allocation cache rebuilt from the store) runs only in Server.Run, first thing; Start reaches Run only without an election, otherwise through leaderelection.RunOrDie -> OnStartedLeading; nothing rebuilds the cache earlier -/\ndef initRunsAfterLeadershipAcquired : Bool := %s\n",
+		fg.LeanBool(runOK && startOK && electOK && leading && noEarly))
+	// the plugin is constructed before the informer factories start
+	np := tStart.first(0, "call", has("schedulerplugin.NewFloatingIPPlugin("))
+	si := tStart.first(0, "call", has("R.StartInformers("))
+	early := false
+	for i, e := range tStart.Events {
+		if e.Kind == "call" && (strings.Contains(e.Text, "StartInformers(") || strings.Contains(e.Text, "nformerFactory.Start(")) && i < np {
+			early = true
+		}
+	}
+	fmt.Fprintf(&b, "/-- galaxy-ipam start order: NewFloatingIPPlugin (hence NewCrdIPAM's AddEventHandler on the FloatingIP informer) precedes StartInformers -/\ndef informersStartAfterPluginConstructed : Bool := %s\n", fg.LeanBool(before(np, si) && !early))
+	rel := tAPI.first(0, "call", is("api.NewController(R.plugin.GetIpam(),R.PodLister,R.plugin.Release)")) >= 0
+	fmt.Fprintf(&b, "/-- the release function of the API controller is the plugin's Release -/\ndef releaseFuncIsPluginRelease : Bool := %s\n", fg.LeanBool(rel))
+	lockFn := false
+	for _, e := range tAPI.Events {
+		if strings.Contains(e.Text, "LockPoolFunc:R.plugin.LockDpPool") {
+			lockFn = true
+		}
+	}
+	fmt.Fprintf(&b, "/-- the lock function of the pool API is the plugin's LockDpPool -/\ndef lockPoolFuncIsPluginLockDpPool : Bool := %s\n\n", fg.LeanBool(lockFn))
+	return b.String(), nil
+}
+
 func checklistSkipsNonPodKeys(t *Trace) bool {
 	ok := false
 	for _, e := range t.Events {
